@@ -545,6 +545,9 @@ pub enum Feed {
     Finite(Vec<u8>),
     /// write the block again and again until the child goes away
     Endless(Vec<u8>),
+    /// endless and SLOW: one line of the block every `.1` milliseconds (so the renderer's 50 ms
+    /// poll sees idle periods between rows)
+    Paced(Vec<u8>, u64),
 }
 
 #[derive(Debug, Clone, Default)]
@@ -616,6 +619,19 @@ pub fn run_proc(bin: &str, args: &[String], feed: Feed, close_after: Option<usiz
                             break;
                         }
                         *fed.lock().unwrap() += b.len();
+                    }
+                }
+            }
+            Feed::Paced(b, ms) => {
+                if let Some(mut s) = si.take() {
+                    'outer: while !stop.load(Ordering::SeqCst) {
+                        for line in b.split_inclusive(|c| *c == b'\n') {
+                            if stop.load(Ordering::SeqCst) || s.write_all(line).is_err() || s.flush().is_err() {
+                                break 'outer;
+                            }
+                            *fed.lock().unwrap() += line.len();
+                            std::thread::sleep(Duration::from_millis(ms));
+                        }
                     }
                 }
             }
